@@ -25,6 +25,17 @@ class Scratch:
 
     def __init__(self, tag='vf'):
         base = '/dev/shm' if os.path.isdir('/dev/shm') else None
+        if base:
+            # scratch directories of checks that were killed stay behind in memory (tmpfs): drop those older than 6 hours
+            try:
+                now = time.time()
+                for name in os.listdir(base):
+                    path = os.path.join(base, name)
+                    if re.match(r'^(c\d\d[a-z]?|idx|vf|x|pl|c\d\dr)-', name) and os.path.isdir(path) \
+                            and now - os.path.getmtime(path) > 6 * 3600:
+                        shutil.rmtree(path, ignore_errors=True)
+            except OSError:
+                pass
         self.dir = tempfile.mkdtemp(prefix=f'{tag}-', dir=base)
         for name in os.listdir(SPECS):
             if name.endswith(('.tla', '.cfg')):
@@ -60,14 +71,15 @@ class TLCResult:
         if 'Temporal properties were violated' in out:
             self.violated.append('TemporalProperty')
         self.deadlock = 'Deadlock reached' in out
+        self.timed_out = False
         self.failed_to_run = (not m and not self.violated and not self.no_error
                               and 'states generated' not in out)
 
-    def printed(self, tag):
-        '''Values printed with PrintT(<<tag, ToJson(x)>>): returns list of decoded JSON.'''
-        res = []
+    def iter_printed(self, tag):
+        '''Values printed with PrintT(<<tag, ToJson(x)>>), decoded one at a time (nothing is kept).'''
+        import io
         marker = '<<"%s", "' % tag
-        for line in self.out.splitlines():
+        for line in io.StringIO(self.out):
             i = line.find(marker)
             if i < 0:
                 continue
@@ -79,10 +91,13 @@ class TLCResult:
             # TLC prints the string with TLA+ escapes: \" and \\
             text = text.replace('\\"', '"').replace('\\\\', '\\')
             try:
-                res.append(json.loads(text))
+                yield json.loads(text)
             except ValueError:
                 raise MachineryError(f'cannot decode printed {tag}: {text[:200]}')
-        return res
+
+    def printed(self, tag):
+        '''Values printed with PrintT(<<tag, ToJson(x)>>): returns list of decoded JSON.'''
+        return list(self.iter_printed(tag))
 
     def error_trace(self):
         '''The counterexample as a list of (header, text) per state, raw text.'''
@@ -105,7 +120,7 @@ class TLCResult:
 
 def run_tlc(scratch, module, cfg, *, workers=16, simulate=None, depth=None, seed=None,
             coverage=False, cont=False, timeout=1800, env_extra=None, dfs=False, heap='8g',
-            extra=()):
+            extra=(), soft=False):
     '''Run TLC on scratch/<module>.tla with scratch/<cfg>.'''
     meta = tempfile.mkdtemp(prefix='meta-', dir=scratch.dir)
     cmd = ['java', '-XX:+UseParallelGC', f'-Xmx{heap}']
@@ -137,6 +152,15 @@ def run_tlc(scratch, module, cfg, *, workers=16, simulate=None, depth=None, seed
     except subprocess.TimeoutExpired as e:
         out = (e.stdout or b'').decode() if isinstance(e.stdout, bytes) else (e.stdout or '')
         subprocess.run(['pkill', '-f', meta], check=False)
+        if soft:
+            # a time budget, not a failure: what was explored so far is reported (states from the last progress line)
+            res = TLCResult(out, time.time() - start)
+            res.timed_out = True
+            m = re.findall(r'([\d,]+) states generated \([\d,]+ s/min\), ([\d,]+) distinct states found', out)
+            if m:
+                res.generated = int(m[-1][0].replace(',', ''))
+                res.distinct = int(m[-1][1].replace(',', ''))
+            return res
         raise MachineryError(f'TLC timed out after {timeout}s on {module}/{cfg}\n{out[-2000:]}')
     finally:
         shutil.rmtree(meta, ignore_errors=True)
@@ -162,7 +186,38 @@ def model_check(scratch, module, cfg, *, expect_actions=(), **kw):
 
 
 def validate_traces(scratch, module, cfg, traces, *, workers=8, timeout=1800, name='traces.json',
-                    invariants=None):
+                    invariants=None, max_bytes=60_000_000):
+    '''Batches of at most max_bytes of JSON per TLC run (the whole document is deserialised into TLC values in memory);
+    trace ids in the failures are those of the full list.'''
+    sizes = [len(json.dumps(t)) for t in traces]
+    if sum(sizes) <= max_bytes or len(traces) <= 1:
+        return _validate_traces(scratch, module, cfg, traces, workers=workers, timeout=timeout, name=name, invariants=invariants)
+    res_all, failures_all, start, k = None, [], 0, 0
+    while start < len(traces):
+        end, tot = start, 0
+        while end < len(traces) and (end == start or tot + sizes[end] <= max_bytes):
+            tot += sizes[end]
+            end += 1
+        res, failures = _validate_traces(scratch, module, cfg, traces[start:end], workers=workers, timeout=timeout,
+                                         name=f'{k}-{name}', invariants=invariants)
+        os.remove(scratch.path(f'{k}-{name}'))
+        for f_ in failures:
+            f_['tid'] += start
+        failures_all += failures
+        if res_all is None:
+            res_all = res
+        else:
+            res_all.distinct += res.distinct
+            res_all.generated += res.generated
+            res_all.no_error = res_all.no_error and res.no_error
+            res_all.violated += res.violated
+        start = end
+        k += 1
+    return res_all, failures_all
+
+
+def _validate_traces(scratch, module, cfg, traces, *, workers=8, timeout=1800, name='traces.json',
+                     invariants=None):
     '''Check recorded traces (list of JSON documents) against a trace specification.
 
     The trace spec reads IOEnv.TRACE_FILE, starts one behaviour per trace (variable tid)
